@@ -7,7 +7,7 @@
     exact dyadics with -0/NaN/+-Inf, strings, booleans, nil, slices of these. *)
 From Coq Require Import ZArith List Bool Lia Strings.Byte QArith.
 From YV Require Import Base.Wrap Val.Model Conv.Model Conv.Spec Conv.Proofs Conv.ProofsNum Conv.ProofsText
-  Conv.ProofsDec Conv.ProofsMain.
+  Conv.ProofsDec Conv.ProofsMain Conv.Front Conv.ProofsFront.
 Import ListNotations.
 Open Scope Z_scope.
 
@@ -120,6 +120,18 @@ Theorem C10_conv_one_of_exact : forall ts s r t, wf_src s -> conv_one_of ts s = 
   (exact s r \/ kf_float_text t s = true) /\ rval_typed t r.
 Proof. exact conv_one_of_exact. Qed.
 Print Assumptions C10_conv_one_of_exact.
+
+(** node.NewValue (plain types, leafref chains, unions, enumerations): the value is exact for the
+    leaf's type - a union value is exact and typed for one of the member formats, an enumeration
+    value is a DECLARED enum whose id is the number given or whose label is the text given *)
+Theorem C10_new_value_exact : forall ty s res, wf_src s -> new_value ty s = Ok res ->
+  nexact ty s res \/ nkf ty s = true.
+Proof. exact new_value_exact. Qed.
+Print Assumptions C10_new_value_exact.
+Theorem C10_to_enum_exact : forall el x e, wf_scalar x -> to_enum el x = Ok e ->
+  In e el /\ (enum_agree e x \/ float_text x = true).
+Proof. exact to_enum_exact. Qed.
+Print Assumptions C10_to_enum_exact.
 
 (** non-vacuity: extreme sources are well-formed and do convert *)
 Example C10_hyps_met :
